@@ -71,11 +71,18 @@ FailSync == {<<E("10-aa", "exec", IF k = 1 THEN "failsync" ELSE "healthy"), E("2
                E("30-cc", "exec", IF k = 3 THEN "failsync" ELSE "healthy")>> : k \in 1..3}
             \cup {<<E("10-only", "exec", "failsync")>>}
 
+\* "a plugin that fails to start": an executable file that is not a program ("garbage": exec format error), a symbolic
+\* link to a directory ("symdir") - candidates by name and mode, never launched, and nobody else is affected
+CannotStart == {<<E("10-aa", IF k = 1 THEN bk ELSE "exec", IF k = 1 THEN "" ELSE "healthy"),
+                  E("20-bb", IF k = 2 THEN bk ELSE "exec", IF k = 2 THEN "" ELSE "healthy"),
+                  E("30-cc", IF k = 3 THEN bk ELSE "exec", IF k = 3 THEN "" ELSE "healthy")>> : k \in 1..3, bk \in {"garbage", "symdir"}}
+               \cup {<<E("10-only", "garbage", "")>>, <<E("10-aa", "garbage", ""), E("20-bb", "symdir", "")>>}
+
 Scenarios ==
   CASE Mode = "dirs" -> {[entries |-> d, dropins |-> {}, stale |-> FALSE, syncfails |-> FALSE] : d \in Dirs2 \cup Dirs3 \cup Small}
     [] Mode = "dropins" -> {[entries |-> <<E("20-bb", "exec", "healthy"), E("10-aa", "exec", "healthy")>>, dropins |-> da \cup db,
                              stale |-> FALSE, syncfails |-> FALSE] : da \in DropSets("10-aa"), db \in DropSets("20-bb")}
-    [] Mode = "more" -> {[entries |-> d, dropins |-> {}, stale |-> FALSE, syncfails |-> FALSE] : d \in {ExecBits, Liar} \cup FailSync \cup Hangs}
+    [] Mode = "more" -> {[entries |-> d, dropins |-> {}, stale |-> FALSE, syncfails |-> FALSE] : d \in {ExecBits, Liar} \cup FailSync \cup Hangs \cup CannotStart}
                         \* the runtime's own synchronization callback fails: Start fails and everything launched is killed
                         \cup {[entries |-> <<E("10-aa", "exec", "healthy"), E("20-bb", "exec", "healthy"), E("30-cc", "exec", "noregister")>>,
                                dropins |-> {}, stale |-> FALSE, syncfails |-> TRUE]}
